@@ -76,9 +76,9 @@ theorem noLit_trEx : NoLitNames trEx := by
   intro s hs
   simp only [trEx, lookup]
   split
-  · rename_i h; subst h; simp [parseLit] at hs
+  · rename_i h; subst h; exact absurd hs (by decide)
   · split
-    · rename_i h; subst h; simp [parseLit] at hs
+    · rename_i h; subst h; exact absurd hs (by decide)
     · rfl
 theorem denote_exS : denoteM trEx (desugar exS) = .ok (.vec [9, 3, 21]) := by rfl
 
